@@ -335,7 +335,8 @@ for _p in ('C18', 'C01'):
                                                        (E, 'ber.encoder::_isValueOf')]
 # BitString * n (fix 3affd96): n copies of the bits, n times the length
 for _p in ('C14', 'C19'):
-    PROPS[_p]['contracts'] = PROPS[_p]['contracts'] + [('contracts.univ_bits', 'type.univ::BitString.__mul__')]
+    PROPS[_p]['contracts'] = PROPS[_p]['contracts'] + [('contracts.univ_bits', 'type.univ::BitString.%s' % _op) for _op in (
+        '__mul__', '__add__', '__radd__', '__lshift__', '__rshift__')]
 # exact comparison of REAL values (fix 07c7cc8): normal form computed by Real.__factors, __eq__ compares normal forms
 UR = 'contracts.univ_real'
 for _p in ('C01', 'C03', 'C04'):
